@@ -9,7 +9,13 @@ Inductive inp :=
 | ITime (str fmt : bytes) (names : list (bytes * Z)) (locoff finoff : Z)
 | IBucket (str bucket fmt : bytes) (names : list (bytes * Z)) (locoff finoff : Z)
 | IDur (s : bytes)
-| IDurFmt (arg : bytes).
+| IDurFmt (arg : bytes)
+(* nested forms: {time {timeformat {0} F Z} F Z}, {timeformat {time {0} F Z} F2 Z},
+   {duration {durationformat {0}}}, {durationformat {duration {0}}} *)
+| IRoundTrip (arg fmt : bytes) (off : Z) (abbr : bytes) (names : list (bytes * Z)) (locoff finoff : Z)
+| IReformat (str fmt : bytes) (names : list (bytes * Z)) (locoff finoff : Z) (fmt2 : bytes) (off : Z) (abbr : bytes)
+| IDurRT (arg : bytes)
+| IDurRF (s : bytes).
 
 Definition hexnames (l : list (string * Z)) : list (bytes * Z) := map (fun p => (unhex (fst p), snd p)) l.
 
@@ -24,6 +30,12 @@ Definition cb (str bucket fmt : string) (names : list (string * Z)) (locoff fino
   (IBucket (unhex str) (unhex bucket) (unhex fmt) (hexnames names) locoff finoff, unhex out).
 Definition cd (s out : string) : inp * bytes := (IDur (unhex s), unhex out).
 Definition cg (arg out : string) : inp * bytes := (IDurFmt (unhex arg), unhex out).
+Definition crt (arg fmt : string) (off : Z) (abbr : string) (names : list (string * Z)) (locoff finoff : Z) (out : string) : inp * bytes :=
+  (IRoundTrip (unhex arg) (unhex fmt) off (unhex abbr) (hexnames names) locoff finoff, unhex out).
+Definition cft (str fmt : string) (names : list (string * Z)) (locoff finoff : Z) (fmt2 : string) (off : Z) (abbr out : string) : inp * bytes :=
+  (IReformat (unhex str) (unhex fmt) (hexnames names) locoff finoff (unhex fmt2) off (unhex abbr), unhex out).
+Definition cdr (arg out : string) : inp * bytes := (IDurRT (unhex arg), unhex out).
+Definition cdf (s out : string) : inp * bytes := (IDurRF (unhex s), unhex out).
 
 Definition model (i : inp) : bytes :=
   match i with
@@ -33,6 +45,10 @@ Definition model (i : inp) : bytes :=
   | IBucket str b fmt names lo fo => kf_buckettime str b fmt names lo fo
   | IDur s => kf_duration s
   | IDurFmt a => kf_durationformat a
+  | IRoundTrip arg fmt off abbr names lo fo => kf_time (kf_timeformat arg fmt off abbr) fmt names lo fo
+  | IReformat str fmt names lo fo fmt2 off abbr => kf_timeformat (kf_time str fmt names lo fo) fmt2 off abbr
+  | IDurRT a => kf_duration (kf_durationformat a)
+  | IDurRF s => kf_durationformat (kf_duration s)
   end.
 
 Definition oeqb (a b : bytes) : bool := bytes_eqb a b.
@@ -46,6 +62,25 @@ Definition check (i : inp) (o : bytes) : bool :=
   | IBucket str b fmt names lo fo => C18_check_bucket str b fmt names lo fo o
   | IDur s => C18_check_duration s o
   | IDurFmt a => C18_check_durationformat a o
+  | IRoundTrip arg fmt off abbr names lo fo =>
+      bytes_eqb (kf_time (kf_timeformat arg fmt off abbr) fmt names lo fo) o &&
+      (* C18_roundtrip_kf: the instant comes back *)
+      match atoi arg with
+      | Some t => if existsb (bytes_eqb (upper fmt)) rt_names && in_range t off && rt_offset off
+                  then bytes_eqb o (itoa t) else true
+      | None => true
+      end
+  | IReformat str fmt names lo fo fmt2 off abbr =>
+      bytes_eqb (kf_timeformat (kf_time str fmt names lo fo) fmt2 off abbr) o
+  | IDurRT a =>
+      bytes_eqb (kf_duration (kf_durationformat a)) o &&
+      (* C18_duration_roundtrip *)
+      match atoi a with
+      | Some secs => if (- max_whole_secs <=? secs)%Z && (secs <=? max_whole_secs)%Z
+                     then bytes_eqb o (itoa secs) else true
+      | None => true
+      end
+  | IDurRF s => bytes_eqb (kf_durationformat (kf_duration s)) o
   end.
 
 (* a case = one compiled expression evaluated on a sequence of inputs (singleton for the ordinary cases):
